@@ -533,6 +533,18 @@ impl Wallet {
         self.available_balance
     }
 
+    /// The part of the balance that generate_slips can draw on: unspent slips that are not
+    /// about to be rebroadcast (same rule as in generate_slips).
+    pub fn get_spendable_balance(&self, latest_block_id: u64, genesis_period: u64) -> Currency {
+        self.unspent_slips
+            .iter()
+            .filter_map(|key| self.slips.get(key))
+            .filter(|slip| {
+                slip.block_id > latest_block_id.saturating_sub(genesis_period.saturating_sub(1))
+            })
+            .fold(0 as Currency, |sum, slip| sum.saturating_add(slip.amount))
+    }
+
     pub fn get_unspent_slip_count(&self) -> u64 {
         self.unspent_slips.len() as u64
     }
